@@ -4,7 +4,7 @@ import re
 
 from corr import _httpchan as H
 
-HEADLINE = "TwistedProps.C18.http_seg_invariant_partial"
+HEADLINE = "TwistedProps.C18.http_seg_invariant"
 RULE = ("request streams generated from the HTTP/1.1 grammar (request line, header variants, obs-fold, Expect, Connection, "
         "Content-Length / chunked bodies with extensions and trailers, 1-4 pipelined requests, IE blank lines, tails), a malformed "
         "stream (bad request lines / header lines / chunk framing, byte mutations, truncation) and streams at the limits named in "
@@ -18,13 +18,20 @@ ASSUMES = [
     "a real transport delivers nothing after loseConnection() (the harness stops feeding at transport.disconnecting)",
     "requests do not trigger form parsing in Request.requestReceived (no Content-Type request header in generated streams)",
     "transport.producerState is not an observable of the property (it is compared in the tie only)",
+    "the state theorem (http_seg_state) identifies channels up to the attribute `length` of a _ChunkedTransferDecoder while that "
+    "attribute is dead (after the end of a chunk, until the next chunk-size line overwrites it): the real attribute does differ "
+    "between a split and a one-piece delivery (TwistedProps.C18.chunked_length_attr_differs, reproduced on the real class), it is "
+    "never read in that window (TwistedProps.C18.outc_lenEq, D_rel)",
 ]
 TRUSTED = ["twisted.internet.testing.StringTransport(lenient=True) as the transport; task.Clock as the reactor",
            "server.version / server.datetimeToString patched to constants (fixed banner and clock)"]
 MANIFEST = {
     "text": "Lean theorems (TwistedProps/C18.lean) over the HTTPChannel model for every application, byte stream and segmentation "
-            "(receive loop commutes with appending, channel invariant; PARTIAL: the splitting property of the chunked body decoder is an "
-            "explicit hypothesis, proved only for the identity decoder); "
+            "(http_seg_invariant: requests handed over, bytes written, closing and escaping exception equal those of the one-piece delivery; "
+            "http_seg_state: same receive buffer and same channel state up to a dead decoder attribute; proof: receive loop commutes with "
+            "appending, channel invariant, and the splitting property of BOTH body decoders — identity_decoder_splits, chunked_decoder_splits "
+            "(the chunked decoder's dataReceived commutes with splitting its input for every decoder state and every byte string, "
+            "including the _MalformedChunkedDataError cases: same exception after the same callbacks); no hypothesis left); "
             "model tied to web/http.py + protocols/basic.py by differential runs of the real channel on grammar-generated, mutated and "
             "limit-sized streams under random segmentations; oracle compares every split run with the one-piece run on the real code.",
     "note": "trusts Lean kernel, the hand-written model of HTTPChannel/LineReceiver/decoders (differentially tied), StringTransport as transport",
